@@ -17,10 +17,10 @@ import (
 
 var vae struct {
 	n     int
-	nonce [6][]byte
-	ad    [6][]byte
-	pt    [6][]byte
-	ct    [6][]byte
+	nonce [32][]byte
+	ad    [32][]byte
+	pt    [32][]byte
+	ct    [32][]byte
 	opens int
 }
 
@@ -63,7 +63,7 @@ func (c *verifCBC) SetIV(iv []byte) { c.ivs++ }
 
 var vmac struct {
 	n    int
-	sent      [6][]byte // messages the sender authenticated
+	sent      [32][]byte // messages the sender authenticated
 	wire      []byte    // the attacker's stream (for the unforgeability assumption)
 	recStarts []int     // offsets of the attacker's records in wire
 	allWindows bool     // apply the unforgeability assumption to every 32-byte window of the wire (small wires only)
